@@ -186,9 +186,17 @@ fn check_matrix(n: usize, rng: &mut Rng, q: &mut Q, rep: &mut Report, with_sets:
                     if !ans.starts_with("err") {
                         rep.oracle("set", "nonzero-diagonal-accepted", &ctx, &ans);
                     }
+                    // setting the diagonal to zero is accepted and changes NOTHING: every cell reads as before
                     let mut w0 = m.clone();
-                    if w0.set(&t[i], &t[j], 0.0).is_err() {
-                        rep.oracle("set", "zero-diagonal-refused", &ctx, "");
+                    match guarded(AssertUnwindSafe(|| w0.set(&t[i], &t[j], 0.0).is_err())) {
+                        Err(_) => rep.oracle("no-panic", "set-zero-on-the-diagonal", &ctx, "panic"),
+                        Ok(true) => rep.oracle("set", "zero-diagonal-refused", &ctx, ""),
+                        Ok(false) => {
+                            let same = guarded(AssertUnwindSafe(|| w0.iter().zip(m.iter()).all(|(a, b)| a.to_bits() == b.to_bits()))).unwrap_or(false);
+                            if !same {
+                                rep.oracle("set", "zero-on-the-diagonal-changed-a-cell", &ctx, "");
+                            }
+                        }
                     }
                     continue;
                 }
@@ -481,10 +489,16 @@ pub fn run(thorough: bool, seed: u64, driver: &str, rep: &mut Report) {
             }
             if rng.chance(1, 2) {
                 let v = rng.range(1, 999) as i64;
-                let r = m.set(&t[i], &t[j], v as f64);
                 let cmd = format!("mx.set\t{}\t{}\t{v}", hex(&t[i]), hex(&t[j]));
                 script.push('\n');
                 script.push_str(&cmd);
+                let r = match guarded(AssertUnwindSafe(|| m.set(&t[i], &t[j], v as f64))) {
+                    Ok(r) => r.map_err(|_| ()),
+                    Err(_) => {
+                        rep.oracle("no-panic", "set", &script, "panic");
+                        break;
+                    }
+                };
                 q.push(&script, cmd, if r.is_ok() { "ok".into() } else { "err".into() });
                 if r.is_ok() && i != j {
                     table[i][j] = v;
